@@ -8,7 +8,7 @@ cd /tmp/verif-matrix || exit 2
 find /tmp/verif-matrix/build -mindepth 1 -delete 2>/dev/null
 export VERIF_REPO=/tmp/wt/matrix-repo
 R=$VERIF_REPO
-OUT=/tmp/mut/final_sweep.tsv
+OUT=${OUT:-/tmp/mut/final_sweep.tsv}
 : > $OUT
 for d in /tmp/mut/C??/? /tmp/mut2/C??/? /tmp/mut3/C??/? /tmp/mut4/C??/? /tmp/mut5/C??/? /tmp/mut6/C??/?; do
   [ -f $d/patch.diff ] || continue
